@@ -2,6 +2,7 @@ import PlzVerif.Lemmas.LockProgress
 import PlzVerif.Lemmas.LockRuns
 import PlzVerif.Lemmas.LockNext
 import PlzVerif.Model.LockFacts
+import PlzVerif.Lemmas.LockTest
 /-!
 C31  Concurrent plz invocations on one repo do not corrupt outputs.
 
@@ -20,6 +21,7 @@ harness (harness/cmd/c31), which also replays `C31_lock_needed`'s scenario shape
 -/
 namespace PlzVerif.Props.C31
 open PlzVerif.Build PlzVerif.Lock
+set_option linter.unusedSectionVars false
 
 /-- Obligation a code change can break: the facts regenerated from lock.go, buildTarget, prepareDirectories,
     moveOutput, needsBuilding, please.go and test_step.go satisfy the side condition of the theorems below. -/
@@ -260,12 +262,15 @@ theorem scenario_ex : Scenario execN id id repo reqAll s0 :=
     hist := by intro k c st h; simp [s0] at h }
 
 open Ex in
-/-- The scenario hypotheses are satisfiable and the model is genuinely concurrent under the regenerated facts:
-    a reachable state has two different processes inside critical sections (of different targets) at once. -/
+/-- The scenario hypotheses are satisfiable and, with the repo lock shared (the mode `plz build` uses on the pinned
+    tree; `C31_serialised_if_exclusive` covers the other one) and the regenerated target-lock fact, the model is
+    genuinely concurrent: a reachable state has two different processes inside critical sections (of different
+    targets) at once.  (Stated for the shared mode explicitly so that a change of the repo-lock mode — under which
+    the property still holds — does not break a witness.) -/
 theorem C31_nonvacuous_concurrent :
-    ∃ s, GReach execN id id repo procs reqAll noForce s0 s ∧
+    ∃ s, Reach generatedFacts ⟨generatedLFacts.excl, false⟩ execN id id repo procs reqAll noForce s0 s ∧
       (s.pc 0 1).inCS = true ∧ (s.pc 1 0).inCS = true ∧ s.phase 0 = .inside ∧ s.phase 1 = .inside :=
-  ⟨run generatedLFacts concurrentSched, runSched_reach _ _ .init, by decide⟩
+  ⟨run ⟨generatedLFacts.excl, false⟩ concurrentSched, runSched_reach _ _ .init, by decide⟩
 
 open Ex in
 /-- … and terminal states are reachable, with the clean outputs in place and each action executed once. -/
@@ -280,5 +285,54 @@ open Ex in
 theorem C31_lock_needed :
     ∃ s, Reach generatedFacts ⟨false, false⟩ execN id id repo procs reqAll noForce s0 s ∧ s.pc 0 0 = .failed :=
   ⟨run ⟨false, false⟩ raceSched, runSched_reach _ _ .init, by decide⟩
+
+/-! ### The test step (src/test/test_step.go `test`): the same discipline with the per-run test lock
+
+`Model/LockTest.lean`: processes running the same test target; `built p` = process p (re)built the target itself and
+therefore reruns the test whatever is cached.  The lock is the same `AcquireExclusiveFileLock` (fact `excl`); the
+bracket around needToRun … RemoveTestOutputs … the run is part of `LockFactsOK` (`testBracketOK`). -/
+section
+variable {P Hh : Type} [DecidableEq P] [DecidableEq Hh]
+variable {ps : List P} {want built : P → Bool} {h : Hh}
+
+theorem test_reach {s0 s : LockTest.TState P Hh}
+    (hr : LockTest.TReach ps want built h generatedLFacts.excl s0 s) : LockTest.TReach ps want built h true s0 s := by
+  have e : generatedLFacts.excl = true := facts_parts.2.2.2
+  rw [e] at hr; exact hr
+
+/-- Two executions of one test never overlap. -/
+theorem C31_test_mutex {s0 s : LockTest.TState P Hh} (h0 : LockTest.TInit s0)
+    (hr : LockTest.TReach ps want built h generatedLFacts.excl s0 s) {p q : P}
+    (hp : (s.pc p).inCS = true) (hq : (s.pc q).inCS = true) : p = q :=
+  (LockTest.reach_tinv h0 (test_reach hr)).mutex hp hq
+
+/-- A test is executed at most once per invocation … -/
+theorem C31_test_runs_bounded {s0 s : LockTest.TState P Hh} (h0 : LockTest.TInit s0)
+    (hr : LockTest.TReach ps want built h generatedLFacts.excl s0 s) : s.runs ≤ ps.length :=
+  LockTest.runs_le_procs (LockTest.reach_tinv h0 (test_reach hr))
+
+/-- … and at most once overall when no invocation rebuilt the target itself: the second entrant finds the
+    results of the first under the same hash. -/
+theorem C31_test_runs_once {s0 s : LockTest.TState P Hh} (h0 : LockTest.TInit s0) (hnb : ∀ p, built p = false)
+    (hr : LockTest.TReach ps want built h generatedLFacts.excl s0 s) : s.runs ≤ 1 :=
+  (LockTest.reach_ninv hnb h0 (test_reach hr)).le1
+
+/-- When every invocation is done the cached results are the ones for the current hash. -/
+theorem C31_test_results_valid {s0 s : LockTest.TState P Hh} (h0 : LockTest.TInit s0)
+    (hr : LockTest.TReach ps want built h generatedLFacts.excl s0 s) (ht : LockTest.TTerminal ps want s)
+    {p : P} (hp : p ∈ ps) (hw : want p = true) : s.res = some h :=
+  LockTest.terminal_valid (LockTest.reach_tinv h0 (test_reach hr)) ht hp hw
+
+/-- No deadlock on the test lock, and every step decreases the work left. -/
+theorem C31_test_progress {s0 s : LockTest.TState P Hh} (h0 : LockTest.TInit s0)
+    (hr : LockTest.TReach ps want built h generatedLFacts.excl s0 s) (hnt : ¬ LockTest.TTerminal ps want s) :
+    ∃ s', LockTest.TStep ps want built h true s s' :=
+  LockTest.tprogress (LockTest.reach_tinv h0 (test_reach hr)) hnt
+
+theorem C31_test_terminates {s0 s s' : LockTest.TState P Hh} (h0 : LockTest.TInit s0)
+    (hr : LockTest.TReach ps want built h generatedLFacts.excl s0 s) (hs : LockTest.TStep ps want built h true s s') :
+    (ps.map fun p => (s'.pc p).rank).sum < (ps.map fun p => (s.pc p).rank).sum :=
+  LockTest.tstep_measure (LockTest.reach_tinv h0 (test_reach hr)) hs
+end
 
 end PlzVerif.Props.C31
